@@ -12,6 +12,8 @@ Not modelled: MolecularData / HDF5 (oracle only).
 -/
 import OFV.Proofs.C20
 import OFV.Proofs.C20Files
+import OFV.Proofs.C20Coef
+import OFV.Proofs.C20Mol
 import Mathlib.Tactic.NormNum
 
 namespace OFV.C20
@@ -102,6 +104,28 @@ that starts with a `[`-free part `p`, then `[`, a `]`-free part `b`, then `]`, y
 theorem regex_match_step (p b rest : Str) (hp : ∀ c ∈ p, c ≠ '[') (hb : ∀ c ∈ b, c ≠ ']') :
     findTerms (p ++ '[' :: (b ++ ']' :: rest)) = (p, b) :: findTerms rest :=
   findTermsAux_match p b rest hp hb
+
+/-- `float(str(z)) = z` in the Model of Python's `float` on integer literals -/
+theorem float_int_model_roundtrip (z : Int) : floatIntModel (intStr z) = some (intGQ z) := floatIntModel_intStr z
+
+/-- **coef_contract_int.**  For integer coefficients the contract `CoefOK` of `parse_print_roundtrip` /
+`text_file_roundtrip` is discharged up to ONE fact about the supplied `float` table: every syntactic requirement (no
+white space / bracket / colon / leading `+`, not empty, not `-`, no `j`, hence handed to `float` unchanged) is proved for
+the text `str(z)`; what remains is that the table agrees with the exact integer model on the integer literals it contains
+(checked by the harness on the real `float`) -/
+theorem coef_contract_int (nt : NumTables) (z : Int) (hmem : ∃ w, (intStr z, w) ∈ nt.pyFloat)
+    (hagree : ∀ e ∈ nt.pyFloat, ∀ v, floatIntModel e.1 = some v → e.2 = v) :
+    CoefOK nt (intStr z) (intGQ z) :=
+  coefOK_int_of_model nt z hmem hagree
+
+/-- **molecular_data_attribute_table** (`MolecularData.save` / `load` conventions `None ↦ False ↦ None`, `int(...)`,
+`float(...)`; h5py itself is a contract): `None`, every number (zero included) and every array survive
+`decode ∘ encode`; only a boolean-valued attribute collides with the sentinel -/
+theorem molecular_data_attribute_table (v : AttrVal) (h : ∀ b, v ≠ .bool b) :
+    decodeAttr 0 (encodeAttr v) = v ∧ decodeAttr 1 (encodeAttr (.int 0)) = .int 0 ∧
+      decodeAttr 2 (encodeAttr (.real 0)) = .real 0 ∧ (∀ k, decodeAttr k (encodeAttr .none) = .none) ∧
+      (∀ b k, decodeAttr k (encodeAttr (.bool b)) = .none) :=
+  ⟨attr_roundtrip_keep v h, rfl, rfl, fun _ => rfl, fun _ _ => rfl⟩
 
 /-- **overwrite_guard.**  `save_operator` without `allow_overwrite` on an existing file raises and
 (returning an error) leaves the file system as it was. -/
